@@ -17,7 +17,7 @@ warnings.simplefilter("ignore")
 import itertools
 
 from vlib import common as V
-from vlib import parsecorr, progs, shapecorr, transcorr
+from vlib import layoutcorr, parsecorr, progs, shapecorr, transcorr
 
 CONTEXTS = ["§", "1 2§", "[§|§]", "(§)", "{1|§}", "λ§;", "ƛ§;", "⟨§|§⟩", "@f:1|§;", "v§", "₌§§", "≬§§§", "[(λ⟨§⟩;)]"]
 
@@ -117,6 +117,8 @@ def run(env):
     transcorr.check(env, text_srcs)
     # 2. block skeleton + verdict on everything
     shapes, _ = shapecorr.check(env, seeds + gen + in_ctx + exhaustive)
+    # 2b. Coq's own reading of the implementation's TEXT (Model/Layout.v) vs compile(), plus mutated texts
+    layoutcorr.check(env, seeds + gen + in_ctx + exhaustive)
     # 3. oracle in both dictionary modes
     allsrc = list(dict.fromkeys(seeds + gen + in_ctx + exhaustive))
     items = [(s, True) for s in allsrc] + [(s, False) for s in allsrc]
@@ -148,4 +150,5 @@ def run(env):
     env.sample({"obligation": "C02_context_conditions: forallb (ctx_ok false false) l = true -> py_wf (shape_program l) = true"})
     env.assume("a block tree that is py_wf and whose leaves are the fixed vocabulary lines / compiled templates renders to text that compiles (measured both ways against compile() on every case, not proved)")
     env.assume("the text, parser and lexer models equal the implementation (checked by correspondence)")
+    env.assume("Model/Layout.v reads Python's block structure as CPython does on the emitted subset: `accepts text` = compile() verdict, measured on the implementation's texts in both dictionary modes and on structurally mutated texts (vlib/layoutcorr.py); validity of escape sequences inside string literals is outside the layout model")
     env.assume("well-formed = parse raises nothing; chars outside the code page are outside the text model")
